@@ -313,6 +313,14 @@ def corpus_json(name):
             _n("doc", p(_t("x")), _n("bullet_list", li(p(_t("a"))), li(p(_t("b"))), li(p(_t("c"))))),
             _n("doc", _n("bullet_list", li(p(_t("x")), _n("bullet_list", li(p(_t("a"))), li(p(_t("b")))), p(_t("y"))))),
         ]
+    if name in ("note", "notehtml"):
+        fn = lambda *c, **k: _n("footnote", *c, **k)  # noqa: E731
+        docs += [
+            # marks that occur only inside / only on / only around an inline node with content
+            _n("doc", p(_t("ab"), fn(_t("c"), _t("d" + ASTRAL, "em")), _t("e", "strong"))),
+            _n("doc", p(_t("a"), fn(_t("xz"), _t("y", "em")), _t("c")), p(_t("d"))),
+            _n("doc", p(fn(), _t("a"), fn(_t("b", "code"))), p(fn(_t("c")))),
+        ] + ([_n("doc", p(_t("a", "em"), fn(_t("cd", "em"), m=["em", "strong"]), _t("ef", "em")))] if name == "note" else [])
     if name == "iso":
         docs += [
             _n("doc", p(_t("x")), _n("box", p(_t("ab"))), p(_t("y"))),
